@@ -78,6 +78,18 @@ func TestZZVerifSizes(t *testing.T) {
 	for _, a := range pad {
 		fam = append(fam, a, st(a, I8), st(I8, a, I8), types.NewArray(a, 2), st(types.NewArray(a, 2), I8), st(st(a, I8), I16), st(I8, types.NewArray(a, 0)))
 	}
+	// less common shapes: complex numbers inside arrays inside structs, arrays of arrays, three
+	// levels of nesting, interface / chan / map fields between small fields, runs of small
+	// fields followed by pointers
+	C64, C128 := types.Typ[types.Complex64], types.Typ[types.Complex128]
+	U16 := types.Typ[types.Uint16]
+	fam = append(fam,
+		st(I8, types.NewArray(C128, 2), I8), st(I8, types.NewArray(C64, 3), I16), types.NewArray(st(I8, C128), 2),
+		types.NewArray(types.NewArray(I16, 3), 2), st(I8, types.NewArray(types.NewArray(I32, 2), 2), I8), types.NewArray(types.NewArray(st(I8, I64), 2), 2),
+		st(I8, st(I16, st(I8, I64, I8), I8), I8), st(st(st(I8), I16), I32), st(I8, st(st(sig, I8), I8), I8),
+		st(I8, emptyI, I8), st(B, types.NewChan(types.SendRecv, I64), B), st(I8, types.NewMap(S, I64), I16), st(I8, types.NewSlice(I8), I8, S, I8),
+		st(B, B, B, types.NewPointer(I8)), st(I8, I8, U16, types.NewPointer(I64), B), st(B, I8, I8, I8, I8, I32, types.NewPointer(I8), B),
+		st(F64, I8, types.Typ[types.Float32], I8, C64), st(I8, types.NewArray(sig, 2), I8, types.NewArray(emptyI, 2), B))
 	named := types.NewNamed(types.NewTypeName(token.NoPos, pkg, "N", nil), st(I8, sig, I64), nil)
 	fam = append(fam, named, st(I8, named), types.NewArray(named, 2))
 	fam = append(fam, st(I8, st(sig, I8), I64), st(st(I8, sig), types.NewArray(st(sig, I8), 2), I8), types.NewArray(st(I8, sig, I16), 3))
@@ -192,6 +204,94 @@ func TestZZVerifSizes(t *testing.T) {
 			}()
 		}
 	}
+	// emitted descriptors (host): Size / Align / FieldAlign of the common header and the
+	// per-field offsets of struct descriptors as they are written into the module must be
+	// the numbers of the LLVM layout
+	{
+		prog := NewProgram(nil)
+		prog.TypeSizes(types.SizesFor("gc", "amd64"))
+		prog.SetRuntime(func() *types.Package {
+			imp := packages.NewImporter(token.NewFileSet())
+			if pkg, _ := imp.Import(PkgRuntime); pkg != nil && pkg.Scope().Lookup("structtype") != nil {
+				return pkg
+			}
+			pkg, err := importer.For("source", nil).Import(PkgRuntime)
+			if err != nil {
+				t.Fatal(err)
+			}
+			return pkg
+		})
+		epkg := prog.NewPackage("main", "main")
+		fn := epkg.NewFunc("main.use", NoArgsNoRet, InGo)
+		b := fn.MakeBody(1)
+		key := "host_emitted"
+		for _, T := range fam {
+			if category(T) == "zerotail" {
+				continue // known finding, see the zerotail groups
+			}
+			func() {
+				bad0 := bad
+				defer func() {
+					if r := recover(); r != nil {
+						bad++
+						fmt.Printf("ZZFAIL ["+key+"] type=%s panic: %v\n", T, r)
+					}
+					c := counts[key]
+					c[0]++
+					if bad > bad0 {
+						c[1]++
+					}
+					counts[key] = c
+				}()
+				lt := prog.Type(T, InGo)
+				raw := lt.raw.Type
+				switch raw.Underlying().(type) {
+				case *types.Struct, *types.Array:
+				default:
+					return
+				}
+				b.abiType(raw)
+				name, _ := prog.abi.TypeName(raw)
+				g := epkg.VarOf(name)
+				if g == nil {
+					panic("descriptor " + name + " not emitted")
+				}
+				// the common header is the innermost first member of type abi.Type
+				common := g.impl.Initializer()
+				for depth := 0; depth < 4 && common.Type().StructName() != "github.com/goplus/llgo/runtime/abi.Type"; depth++ {
+					common = common.Operand(0)
+				}
+				if common.Type().StructName() != "github.com/goplus/llgo/runtime/abi.Type" {
+					panic("common descriptor header not found in " + name)
+				}
+				dSize, dAlign, dFieldAlign := int64(common.Operand(0).ZExtValue()), int64(common.Operand(4).ZExtValue()), int64(common.Operand(5).ZExtValue())
+				llSize, llAlign := int64(prog.SizeOf(lt)), int64(prog.td.ABITypeAlignment(lt.ll))
+				if dSize != llSize || (llSize != 0 && (dAlign != llAlign || dFieldAlign != llAlign)) {
+					bad++
+					fmt.Printf("ZZFAIL ["+key+"] type=%s emitted descriptor size=%d align=%d fieldalign=%d; llvm size=%d align=%d\n", T, dSize, dAlign, dFieldAlign, llSize, llAlign)
+				}
+				if rs, ok := raw.Underlying().(*types.Struct); ok && rs.NumFields() > 0 {
+					fg := epkg.VarOf(name + "$fields")
+					if fg == nil {
+						// a named struct type shares the field table of its underlying struct type
+						un, _ := prog.abi.TypeName(raw.Underlying())
+						fg = epkg.VarOf(un + "$fields")
+					}
+					if fg == nil {
+						panic("field table of " + name + " not emitted")
+					}
+					ftab := fg.impl.Initializer()
+					for i := 0; i < rs.NumFields(); i++ {
+						if dOff, llOff := int64(ftab.Operand(i).Operand(2).ZExtValue()), int64(prog.OffsetOf(lt, i)); dOff != llOff {
+							bad++
+							fmt.Printf("ZZFAIL ["+key+"] type=%s emitted offset of field %d = %d, llvm %d\n", T, i, dOff, llOff)
+						}
+					}
+				}
+			}()
+		}
+		b.Return()
+	}
 	// map descriptors: the key/elem slot sizes and the bucket size recorded in the emitted
 	// descriptor must be those of the bucket layout the run-time map code indexes
 	// (keys/elems larger than 128 bytes are stored as pointers)
@@ -255,7 +355,7 @@ func TestZZVerifSizes(t *testing.T) {
 			}()
 		}
 	}
-	for _, key := range []string{"host_mapdesc", "host_plain", "host_align8", "host_funcvalue", "host_funcvalue_align8", "host_zerotail", "wasm32_plain", "wasm32_align8", "wasm32_funcvalue", "wasm32_funcvalue_align8", "wasm32_zerotail"} {
+	for _, key := range []string{"host_mapdesc", "host_emitted", "host_plain", "host_align8", "host_funcvalue", "host_funcvalue_align8", "host_zerotail", "wasm32_plain", "wasm32_align8", "wasm32_funcvalue", "wasm32_funcvalue_align8", "wasm32_zerotail"} {
 		c := counts[key]
 		fmt.Printf("ZZBOUNDED %s types=%d pairs=%d failures=%d\n", key, len(fam), c[0], c[1])
 	}
